@@ -51,6 +51,10 @@ def is_property(fn: FuncInfo) -> bool:
                for d in fn.node.decorator_list)
 
 
+class StateRead(AnalysisError):
+    """Interpreted code touched instance state of a receiver that is modelled without state."""
+
+
 class RoleInterp(OrderInterp):
     def __init__(self, prog: Program, module: Module,
                  on_call: Callable[[FuncInfo, dict[str, Any]], None] | None = None) -> None:
@@ -64,11 +68,17 @@ class RoleInterp(OrderInterp):
             return super().obj_method(base, attr, node)
         m = self.prog.resolve_method(info, attr)
         if m is None:
-            raise AnalysisError(f"interpreted code reads instance state {info.name}.{attr} "
-                                f"(line {getattr(node, 'lineno', '?')}): not modelled")
+            raise StateRead(f"interpreted code reads instance state {info.name}.{attr} "
+                            f"(line {getattr(node, 'lineno', '?')}): not modelled")
         if is_property(m):
             return self.call_func(m, [base], {})
         return ("bound", m, base)
+
+    def set_attr(self, base: Any, attr: str, v: Any, node: ast.AST) -> None:
+        if isinstance(base, Obj) and getattr(base, "clsinfo", None) is not None and attr not in base.fields:
+            raise StateRead(f"interpreted code writes instance state {base.cls}.{attr} "
+                            f"(line {getattr(node, 'lineno', '?')}): not modelled")
+        super().set_attr(base, attr, v, node)
 
     def apply(self, fn: Any, pos: list[Any], kw: dict[str, Any], node: ast.AST) -> Any:
         if isinstance(fn, tuple) and fn and fn[0] == "bound" and is_static(fn[1]):
@@ -209,6 +219,8 @@ class AgeInterp(RoleInterp):
             raise AnalysisError(f"set.{attr} not modelled")
         if isinstance(base, list) and attr in ("remove", "copy", "clear"):
             return ("listv", base, attr)
+        if isinstance(base, dict) and attr in ("clear", "copy", "update", "popitem"):
+            return ("dictv", base, attr)
         return super().get_attr(base, attr, node)
 
     def apply(self, fn: Any, pos: list[Any], kw: dict[str, Any], node: ast.AST) -> Any:
@@ -234,6 +246,20 @@ class AgeInterp(RoleInterp):
                 return SetV(keep)
             s.items[:] = keep
             return None
+        if isinstance(fn, tuple) and fn and fn[0] == "dictv":
+            d, m = fn[1], fn[2]
+            if m == "clear":
+                d.clear()
+                return None
+            if m == "copy":
+                return dict(d)
+            if m == "update" and len(pos) == 1 and isinstance(pos[0], dict) and not kw:
+                d.update(pos[0])
+                return None
+            if m == "popitem" and d:
+                k = next(reversed(d))
+                return (k, d.pop(k))
+            raise AnalysisError(f"dict.{m} not interpretable here")
         if isinstance(fn, tuple) and fn and fn[0] == "listv":
             lst, m = fn[1], fn[2]
             if m == "copy":
